@@ -451,6 +451,40 @@ def check_state_buffers(ctx, f: FuncInfo, state_var="state", buffers=("buffer", 
   return n_tr
 
 
+def check_state_flush(ctx, f: FuncInfo, state_var="state", buffer="buffer", rule="TYPESTATE-flush", continuation=None):
+  """In a state whose block accumulates pending characters in `buffer`, every branch that leaves the
+  state (assigns another state, breaks or yields a token) reads the buffer - pending characters are
+  emitted or handed on, never dropped."""
+  ctx.unit(f.module)
+  blocks = {}
+  for n in own_nodes(f.node):
+    if isinstance(n, ast.If) and isinstance(n.test, ast.Compare) and unparse(n.test.left) == state_var and isinstance(n.test.ops[0], (ast.Is, ast.Eq)):
+      blocks[unparse(n.test.comparators[0]).split(".")[-1]] = n.body
+  n = 0
+  for s1, body in blocks.items():
+    fills = any(isinstance(c, ast.Call) and isinstance(c.func, ast.Attribute) and c.func.attr in ("append", "extend") and unparse(c.func.value) == buffer for st in body for c in ast.walk(st))
+    if not fills:
+      continue
+    for br in _branches(body):
+      leaves = False
+      for st in br:
+        for x in ast.walk(st):
+          if isinstance(x, ast.Assign) and unparse(x.targets[0]) == state_var and unparse(x.value).split(".")[-1] != s1:
+            if continuation and (s1, unparse(x.value).split(".")[-1]) in continuation:
+              continue      # tabled: the next state keeps filling the same buffer
+            leaves = True
+          if isinstance(x, (ast.Break, ast.Yield, ast.Return)):
+            leaves = True
+      if not leaves:
+        continue
+      n += 1
+      reads = any(isinstance(x, ast.Name) and x.id == buffer and isinstance(x.ctx, ast.Load) and not (isinstance(getattr(x, "_parent", None), ast.Attribute) and x._parent.attr in ("append",)) for st in br for x in ast.walk(st))
+      resets_only = not reads and any(isinstance(x, ast.Assign) and unparse(x.targets[0]) == buffer for st in br for x in ast.walk(st))
+      ctx.check(reads, rule, f"{f.qualname}|{s1}|{short(br[0], 40)}", ctx.where(f.module, br[0]), f"the branch reads `{buffer}` before leaving {s1}",
+                f"the branch `{short(br[0], 50)}` leaves state {s1} without reading `{buffer}`" + (" (it only re-initialises it)" if resets_only else "") + f": the characters collected in {s1} are dropped from the output")
+  return n
+
+
 def _branches(body):
   """Leaf statement lists of an if/elif/else chain nest."""
   out = []
